@@ -379,11 +379,22 @@ func (g *Gen) genSketchHistory(prop string) {
 		if r.Bool(30) {
 			x = " x" // the exact-summary variant clamps its answers to the exact extremes
 		}
+		small := r.Bool(40) // total weight below one
+		long := !small && r.Bool(20)
+		if long {
+			kinds = []string{"pag", "pag", "pag", "dense", "sparse", "low", "high"}
+		}
 		sg.line("K 1 1 %s%s", sg.storeSpec(kinds), x)
 		n := r.Range(1, maxN/2)
-		small := r.Bool(40) // total weight below one
+		unitPct := 20
+		if long {
+			// long runs mixing unit and weighted additions on recurring values: a paginated store then
+			// holds one bin both as buffered unit entries and as page weight, across compactions
+			n = r.Range(70, 220)
+			unitPct = 70
+		}
 		for i := 0; i < n; i++ {
-			w := sg.weight(20)
+			w := sg.weight(unitPct)
 			if small {
 				w = float64(r.Range(1, 40)) / 1024
 				if i >= 3 {
